@@ -652,10 +652,35 @@ func (vr *variableResolver) Evaluate(ctx *ExecutionContext) (*Value, *Error) {
 // t has as well: t is Context, points to one (the methods of Context are in the method
 // set of *Context), or is a struct that embeds one of these (they are promoted).
 func reachesContextMethod(t reflect.Type, name string) bool {
-	if _, has := typeOfContext.MethodByName(name); !has {
+	ctxMethod, has := typeOfContext.MethodByName(name)
+	if !has || !holdsContext(t, 0) {
 		return false
 	}
-	return holdsContext(t, 0)
+	// (a method of that name which the type declares itself hides the promoted one; it
+	// is told apart by its signature - with the same signature it is taken for Context's)
+	if own, found := t.MethodByName(name); found && !sameSignature(own.Type, ctxMethod.Type) {
+		return false
+	}
+	return true
+}
+
+// sameSignature compares two method types (as reflect.Method.Type gives them, the
+// receiver first) without their receivers.
+func sameSignature(a, b reflect.Type) bool {
+	if a.NumIn() != b.NumIn() || a.NumOut() != b.NumOut() || a.IsVariadic() != b.IsVariadic() {
+		return false
+	}
+	for i := 1; i < a.NumIn(); i++ {
+		if a.In(i) != b.In(i) {
+			return false
+		}
+	}
+	for i := 0; i < a.NumOut(); i++ {
+		if a.Out(i) != b.Out(i) {
+			return false
+		}
+	}
+	return true
 }
 
 func holdsContext(t reflect.Type, depth int) bool {
